@@ -154,6 +154,60 @@ def check(ctx):
            'integrity[appname].append(servername)' in src,
            'the integrity map is built from every server and every '
            'restored instance', construct='integrity map construction')
+    _feeder(ctx, loader, nz)
+    # shared with C09.1: the start-up reconciliation of a new master covers
+    # every server that has stored records and removes exactly the records
+    # the model does not hold
+    from . import c09
+    c09._startup(ctx, master, rule='C10.2')
+
+
+def _feeder(ctx, loader, nz):
+    """The per-server helper reports every instance it put back on the
+    server - verbatim or with a re-evaluated lease - so the duplicate
+    detection of restore_placements sees all holders."""
+    func = loader.methods.get('restore_placement')
+    ctx.require(func is not None, 'Loader.restore_placement')
+    graph = ctx.cfg(func)
+    rets = [n for n in graph.nodes if n.kind == 'return' and
+            isinstance(n.ast.value, ast.Tuple) and
+            len(n.ast.value.elts) == 2]
+    ctx.require(rets, 'return (placed, restored) of restore_placement')
+    names = set(N.txt(r.ast.value.elts[1]) for r in rets)
+    ctx.ob('C10.3', func, rets[0], len(names) == 1,
+           'one list of restored instances is returned on every exit: %s' %
+           sorted(names), construct='restored list')
+    lst = sorted(names)[0]
+    places = [(n, c) for n, c in K.nodes_calling(
+        graph, lambda c: K.is_meth(c, 'restore', 'put') and c.args and
+        not (K.recv_text(c) or '').endswith('backend'))]
+    ctx.require(places, 'placements in restore_placement')
+    for node, call in places:
+        loop = K.enclosing_for(graph, node)
+        ctx.require(loop is not None, 'loop over the recorded instances')
+        var = sorted(N.for_targets(loop))[0]
+        result = None
+        if node.kind == 'stmt' and isinstance(node.ast, ast.Assign) and \
+                isinstance(node.ast.targets[0], ast.Name):
+            result = node.ast.targets[0].id
+
+        def appended(cur, var=var):
+            return any(K.is_meth(c, 'append') and K.recv_text(c) == lst and
+                       c.args and N.txt(c.args[0]) == var
+                       for c in C.node_calls(cur))
+
+        def failed(atom, result=result):
+            return result is not None and atom.key[0] == 'truth' and \
+                not atom.key[2] and atom.key[1] == result
+        path = K.find_path_cp(
+            graph, node, [loop, graph.exit], cut_node=appended,
+            cut_edge=lambda e: K.edge_establishes(ctx, func, nz, e, failed),
+            follow_exc=False)
+        ctx.ob('C10.3', func, node, path is None,
+               'an instance put back on the server is reported in %s unless '
+               'the placement failed' % lst,
+               path=K.describe(path) if path else None,
+               construct='reported: ' + node.text(50))
 
 
 _M = 'lib/python/treadmill/scheduler/master.py'
